@@ -164,6 +164,45 @@ fn long_histories() -> Vec<(String, Prog)> {
     out
 }
 
+/// Creations that fail: the value that is not created must not be logged, the ones created on
+/// the way (a parent, earlier field values) must be.
+fn failing_creations() -> Vec<(String, Prog)> {
+    let obj = |ms: Vec<Member>| E::Object(None, ms);
+    let f = |n: &str, v: i32| Member::Field(n.into(), E::Int(v));
+    let cases: Vec<(&str, E)> = vec![
+        ("field-twice", obj(vec![f("x", 1), f("y", 2), f("x", 3)])),
+        ("field-twice-adjacent", obj(vec![f("x", 1), f("x", 3)])),
+        ("method-twice", obj(vec![Member::Method("m".into(), vec![], E::Int(1)), Member::Method("m".into(), vec![], E::Int(2))])),
+        ("field-twice-with-allocated-values", obj(vec![Member::Field("x".into(), E::Array(bx(E::Int(1)), bx(E::Int(0)))), Member::Field("x".into(), obj(vec![]))])),
+        ("field-twice-with-allocated-parent", E::Object(Some(bx(E::Array(bx(E::Int(1)), bx(E::Int(0))))), vec![f("a", 1), f("a", 2)])),
+        ("array-negative-size", E::Array(bx(E::Int(-1)), bx(E::Int(0)))),
+        ("array-negative-size-allocating-initializer", E::Array(bx(E::Int(-1)), bx(obj(vec![])))),
+        ("array-size-null", E::Array(bx(E::Null), bx(E::Int(0)))),
+        ("array-size-is-an-array", E::Array(bx(E::Array(bx(E::Int(1)), bx(E::Int(0)))), bx(E::Int(0)))),
+    ];
+    let mut out = vec![];
+    for (name, bad) in cases {
+        // at the top level, inside a function, and as the third of five creations in a loop
+        out.push((format!("{}-top-level", name), vec![E::Array(bx(E::Int(2)), bx(E::Int(0))), print("before\\n", vec![]), bad.clone(), print("after\\n", vec![])]));
+        out.push((
+            format!("{}-in-function", name),
+            vec![E::Fun("make".into(), vec![], bx(E::Block(vec![obj(vec![f("q", 1)]), bad.clone()]))), print("before\\n", vec![]), call("make", vec![]), print("after\\n", vec![])],
+        ));
+        out.push((
+            format!("{}-in-loop", name),
+            vec![
+                let_("i", E::Int(0)),
+                E::While(
+                    bx(bin("<", var("i"), E::Int(5))),
+                    bx(E::Block(vec![E::Array(bx(var("i")), bx(E::Int(0))), E::If(bx(bin("==", var("i"), E::Int(2))), bx(bad.clone()), Some(bx(E::Null))), assign("i", bin("+", var("i"), E::Int(1)))])),
+                ),
+                print("after\\n", vec![]),
+            ],
+        ));
+    }
+    out
+}
+
 fn judge_fuel(prog: &Prog, ctx: &mut Ctx, tape: &[u8], cli_level: u8, fuel: u64) -> Judged {
     ctx.eval();
     let r = refsem::run(prog, fuel);
@@ -388,6 +427,16 @@ impl Property for C16 {
             ctx.label("long-history-program");
             if let Err(mut v) = judge_fuel(&prog, ctx, &[], 1, 5_000_000) {
                 v.detail = format!("[long history {}] {}", name, v.detail);
+                out.push(v);
+            }
+        }
+        for (i, (name, prog)) in failing_creations().into_iter().enumerate() {
+            if !ctx.shard_mine(i + 5) {
+                continue;
+            }
+            ctx.label("failing-creation-program");
+            if let Err(mut v) = judge_fuel(&prog, ctx, &[], 1, refsem::DEFAULT_FUEL) {
+                v.detail = format!("[failing creation {}] {}", name, v.detail);
                 out.push(v);
             }
         }
